@@ -3,6 +3,9 @@
 import json, os, subprocess
 V = os.path.dirname(os.path.dirname(os.path.abspath(__file__)))
 TEXT = {
+ 'C03': ('conservation monitor: phase x chemical array of the real stream recorded before/after vle (11 specification pairs), lle (3 methods), sle, vlle and the same through mix_from(vle=True), separations.vle, receive_vent; column sums, signs and placement of phase-locked chemicals checked',
+         'Exploration: seeded compositions of 1-6 volatile chemicals plus gas-locked and solid/liquid-locked members, every initial distribution, spec values across the stated ranges (H/S positioned between the V=0.02 and V=0.98 values), repeated calls on the same stream. Only normal returns are judged (the quantifier); raises are counted by type.',
+         'Column sums compared with relative 1e-12 of the column and absolute 1e-12 of the total; programming errors (TypeError, AttributeError, ...) in the call path are still reported.'),
  'C08': ('residual monitor: real BubblePoint/DewPoint solvers called on random compositions; the defining equation is re-evaluated at the returned point from the solver\'s own gamma/phi/pcf/Psat objects; normalisation, inverse relation, bracketing, single-component limit, permutation and scale checked',
          'Exploration: seeded compositions of 1-5 of 11 volatile chemicals incl. zeros and traces, T 260-480 K, P 5e3-3e6 Pa, Dortmund and ideal packages, permutations for n<=4, scale factors 0.5/2/1e-3/1e3.',
          'Dew-side clauses are judged strictly on within-family and ideal-package inputs; on cross-family non-ideal inputs a dew-side failure is the recorded finding (bubble-side clauses stay strict everywhere).'),
